@@ -9,14 +9,17 @@ From Proofs.C02 Require Import C02_defs.
 Import ListNotations.
 Open Scope Z_scope.
 
-Ltac step := whnf_lhs; lazymatch goal with |- bind ?e ?k = _ => rewrite (bind_ok e k) by reflexivity; cbv beta end.
+(* every conversion is under a tactic timeout: when the code changes and the two sides are no
+   longer the same term, the proof FAILS within seconds instead of normalising open terms *)
+Ltac rfl := timeout 30 reflexivity.
+Ltac step := whnf_lhs; lazymatch goal with |- bind ?e ?k = _ => rewrite (bind_ok e k) by rfl; cbv beta end.
 Ltac both t := t; symmetry; t; symmetry.
 (* Epoch.__init__: strip the identical outer frame, then run Epoch.set on both sides up to the
    first call whose argument values are unknown (_check_values / get_full_date) *)
 Ltac forms_eq :=
   unfold mkEg, mkE, blankg, epg, ep; both step; both whnf_lhs;
-  lazymatch goal with |- bind ?x ?k = bind ?y ?k' => assert (x = y) as ->; [|reflexivity] end;
-  both step; both whnf_lhs; reflexivity.
+  lazymatch goal with |- bind ?x ?k = bind ?y ?k' => assert (x = y) as ->; [|rfl] end;
+  both step; both whnf_lhs; rfl.
 
 Section Generic.
 Context {F : Type} (fo : FloatOps F).
@@ -44,14 +47,14 @@ Proof. forms_eq. Qed.
 Lemma copy1 j : mkEg fo [epg j] = mkEg fo [VFloat j].
 Proof.
   unfold mkEg, blankg, epg; both step; both whnf_lhs.
-  lazymatch goal with |- bind ?x ?k = bind ?y ?k' => assert (x = y) as ->; [|reflexivity] end.
-  both step; both whnf_lhs. both step; both whnf_lhs. reflexivity.
+  lazymatch goal with |- bind ?x ?k = bind ?y ?k' => assert (x = y) as ->; [|rfl] end.
+  both step; both whnf_lhs. both step; both whnf_lhs. rfl.
 Qed.
 (* two arguments: ValueError; a string: TypeError *)
 Lemma two_args a b : is_err a = false -> is_err b = false -> mkEg fo [a; b] = VErr ValueError.
-Proof. destruct a, b; simpl; intros; try discriminate; reflexivity. Qed.
+Proof. destruct a, b; cbn [is_err]; intros; try discriminate; rfl. Qed.
 Lemma str_arg s : mkEg fo [VStr s] = VErr TypeError.
-Proof. reflexivity. Qed.
+Proof. rfl. Qed.
 End Generic.
 
 (* datetime: second + microsecond / 1e6 is what a float-seconds argument would be (binary64) *)
